@@ -24,8 +24,8 @@ func (s Src) String() string { return s.Kind + ":" + s.Name }
 
 // FlowOpts controls the slice.
 type FlowOpts struct {
-	IntoCallees bool // descend into returns of static in-module callees
-	IntoCallers bool // from a parameter continue into the arguments at call sites (VTA graph)
+	IntoCallees  bool            // descend into returns of static in-module callees
+	IntoCallers  bool            // from a parameter continue into the arguments at call sites (VTA graph)
 	ThroughCalls map[string]bool // CallInfo.Name of pass-through functions: continue into all args
 	MaxDepth     int
 	// StopAt: treat a call with this CallInfo.Name as a leaf even if IntoCallees.
